@@ -3,5 +3,5 @@ package main
 func init() {
 	props["C22"] = &propCfg{Engine: "poolsim", Test: "TestC22", Level: "exploration",
 		Quick:    tierCfg{Runs: 32000, BudgetS: 120},
-		Thorough: tierCfg{Runs: 4000000, JobSize: 50000, BudgetS: 1500}}
+		Thorough: tierCfg{Runs: 800000, JobSize: 25000, BudgetS: 1500}}
 }
